@@ -173,6 +173,18 @@ def expand_star_args(func: Func, call: ast.Call) -> ast.Call:
     return c
 
 
+def always_exits(stmts) -> bool:
+    """no path falls off the end of the block: it ends in return / raise, or in an if/else whose branches both do"""
+    if not stmts:
+        return False
+    last = stmts[-1]
+    if isinstance(last, (ast.Return, ast.Raise)):
+        return True
+    if isinstance(last, ast.If):
+        return bool(last.orelse) and always_exits(last.body) and always_exits(last.orelse)
+    return False
+
+
 def dict_items(e: ast.AST) -> Optional[Dict[object, ast.AST]]:
     """{constant key: value node} for a dict display with constant keys or a dict(k=v, ...) call; None otherwise"""
     if isinstance(e, ast.Dict) and all(k is not None and isinstance(k, ast.Constant) for k in e.keys):
